@@ -745,6 +745,13 @@ func runDAG(t *testing.T, r *ev.Run, ks *keyring, di int, sp dagSpec, classes ma
 			if o.slot == "any" {
 				o.slot = []string{"pre", "post"}[rnd.Intn(2)]
 			}
+			if i == 0 && o.slot == "pre" {
+				// whatever enters an empty DAG first IS the root: only variants the model refuses even there go before the real root
+				// (the leniently decoded re-encodings, reported under their own keys, would take the root's place)
+				if v, _ := newModel().judge(o.ref(), &o.f, o.payload); v != mustReject || o.f.key != "" {
+					o.slot = "post"
+				}
+			}
 		}
 		targets[i] = sel
 		r.Count("variants_generated", len(sel))
@@ -788,7 +795,7 @@ func runDAG(t *testing.T, r *ev.Run, ks *keyring, di int, sp dagSpec, classes ma
 			// out-of-order arrival: must be refused for the missing reference, nothing else
 			q.offer(&offerT{data: n.data, payload: valid.payload, f: withClass(n.f, "order/arrived-before-its-prevs")}, "early", false)
 			if deferred[i]++; deferred[i] > 200 {
-				r.Fatalf("arrival order does not make progress in %s", q.dag)
+				r.Fatalf("arrival order does not make progress in %s: node %d kind %s prevs %v queue %v", q.dag, i, n.kind, n.prevs, queue)
 			}
 			at := min(len(queue), 1+rnd.Intn(3))
 			queue = append(queue[:at], append([]int{i}, queue[at:]...)...)
@@ -815,8 +822,12 @@ func runDAG(t *testing.T, r *ev.Run, ks *keyring, di int, sp dagSpec, classes ma
 				}
 			}
 		}
-		if !q.offer(valid, "valid", light) && r.Violations() > 0 {
-			// a generated valid transaction did not enter: the rest of this DAG cannot be built (reported above)
+		if !q.offer(valid, "valid", light) {
+			// a generated valid transaction did not enter: the rest of this DAG cannot be built
+			if r.Violations() == 0 {
+				v, why := e.m.judge(n.ref, &n.f, valid.payload)
+				r.Fatalf("generated transaction %d (%s) of %s did not enter and the model did not object: %s %s", i, n.kind, q.dag, v, why)
+			}
 			return
 		}
 		steps++
